@@ -4,6 +4,8 @@ import AslProofs.SemN
 import AslModel.ThreadEnd
 import AslProofs.ThreadEnd
 import Gen.ThreadGen
+import AslModel.ThreadTimed
+import AslProofs.ThreadTimed
 /-!
 # C13 — Thread start/join, ThreadGroup and parallel_for run every task exactly once
 
@@ -410,5 +412,103 @@ example : let c := run init [Act.copy, Act.drop, Act.finish, Act.release]
     readFinished c = some true ∧ c.refs = 1 ∧ (run c [Act.drop]).frees = 1 ∧ (run c [Act.drop]).bad = false := by decide
 
 end StartAndEnd
+
+/-! ## timed waits, time-outs and spurious wake-ups (`AslModel/ThreadTimed.lean`) -/
+
+section Timed
+open AslModel.Thread.SyncT AslProofs.ThreadTimed
+
+/-- **condition_timed_no_lost_signal.**  The documented protocol with any number `n` of waiters, each using
+    `wait()` or `wait(timeout)` (`timed`), giving up on a time-out or not (`giveUp`), written with `while` or with the
+    faulty `if` (`loops`), where the environment may wake any sleeping waiter at any moment without a signal
+    (spurious wake-up) and may let any timed wait run out: in every interleaving no waiter is asleep once the
+    signal has been issued, and once the signaler is done, as long as some waiter is not done there is a
+    not-yet-done waiter that can take a step (no signal is lost, nobody is blocked for ever). -/
+theorem condition_timed_no_lost_signal (n : Nat) (loops : Bool) (timed giveUp : Nat → Bool) (r : List Act)
+    (c : CondT) (hc : c = run (init n loops timed giveUp) r) :
+    (∀ i, c.w i = TPc.sleeping → c.s ≠ SPc.signalled ∧ c.s ≠ SPc.done) ∧
+    (c.s = SPc.done → ∀ i, i < n → c.w i ≠ TPc.done → ∃ j, j < n ∧ c.w j ≠ TPc.done ∧ enabled c (Act.waiter j) = true) := by
+  have h : TInv c := by rw [hc]; exact tinv_run _ r (tinv_init n loops timed giveUp)
+  have hn : c.n = n := by rw [hc]; exact (run_consts _ r).1
+  obtain ⟨h1, h2, h3, h4, h5, h6, h7, h8, h9⟩ := h
+  constructor
+  · intro i hs
+    rcases h1 i hs with h | h | h <;> simp [h]
+  · intro hd i hi hw
+    have hm : c.mutex ≠ Holder.signaler := by
+      intro hx; have := h3.mp hx; rw [hd] at this; simp at this
+    have hsl : c.w i ≠ TPc.sleeping := by
+      intro hx; have := h1 i hx; rw [hd] at this; simp at this
+    cases hmc : c.mutex with
+    | signaler => exact absurd hmc hm
+    | waiter j =>
+      have hj := h5 j hmc
+      have hl := (h2 j).mp hmc
+      refine ⟨j, by omega, by rcases hl with hl | hl <;> rw [hl] <;> simp, ?_⟩
+      rcases hl with hl | hl <;> simp [enabled, hj, hl]
+    | free =>
+      refine ⟨i, hi, hw, ?_⟩
+      have hin : i < c.n := by omega
+      cases hwc : c.w i with
+      | start => simp [enabled, hin, hwc, hmc]
+      | locked => simp [enabled, hin, hwc]
+      | sleeping => exact absurd hwc hsl
+      | woken t => simp [enabled, hin, hwc, hmc]
+      | leaving => simp [enabled, hin, hwc]
+      | done => exact absurd hwc hw
+
+/-- **condition_wait_returns_only_with_predicate.**  With the documented `while (!pred)` loop a waiter that has left the
+    protocol either saw the predicate true under the mutex — and the predicate is then true — or its own timed wait
+    reported a time-out and it chose to give up; a spurious wake-up never lets a waiter through, and an untimed
+    waiter never reports a time-out. -/
+theorem condition_wait_returns_only_with_predicate (n : Nat) (timed giveUp : Nat → Bool) (r : List Act)
+    (c : CondT) (hc : c = run (init n true timed giveUp) r) (i : Nat) (hd : c.w i = TPc.done) :
+    (c.sawPred i = true ∧ c.pred = true) ∨ (c.timedOut i = true ∧ timed i = true ∧ giveUp i = true) := by
+  have h : TInv c := by rw [hc]; exact tinv_run _ r (tinv_init n true timed giveUp)
+  have hk := run_consts (init n true timed giveUp) r
+  rw [← hc] at hk
+  obtain ⟨_, hl, ht, hg⟩ := hk
+  have hl' : c.loops = true := by rw [hl]; rfl
+  rcases h.leaveOk hl' i (Or.inr hd) with hs | ht'
+  · exact Or.inl ⟨hs, h.sawOk i hs⟩
+  · have := h.timedOutOk i ht'
+    rw [ht, hg] at this
+    exact Or.inr ⟨ht', this⟩
+
+/-- **if_instead_of_while_unsafe.**  What the loop is for: the same waiter written `if (!pred) wait();` is let through by
+    one spurious wake-up although the predicate is false and nothing was signalled. -/
+theorem if_instead_of_while_unsafe :
+    ∃ r : List Act, (run (init 1 false (fun _ => false) (fun _ => false)) r).w 0 = TPc.done ∧
+      (run (init 1 false (fun _ => false) (fun _ => false)) r).pred = false ∧
+      (run (init 1 false (fun _ => false) (fun _ => false)) r).sawPred 0 = false ∧
+      (run (init 1 false (fun _ => false) (fun _ => false)) r).timedOut 0 = false :=
+  ⟨[Act.waiter 0, Act.waiter 0, Act.wake 0 false, Act.waiter 0, Act.waiter 0], by decide⟩
+
+/-- non-vacuity (tests, labelled as such): two waiters, one timed and giving up; a spurious wake-up sends waiter 0 back to
+    sleep, waiter 1 times out and leaves, the signal then lets waiter 0 through with the predicate true. -/
+def exTimedRun : CondT := run (init 2 true (fun i => i == 1) (fun i => i == 1))
+      [Act.waiter 0, Act.waiter 0, Act.waiter 1, Act.waiter 1, Act.wake 0 false, Act.waiter 0, Act.waiter 0,
+       Act.wake 1 true, Act.waiter 1, Act.waiter 1, Act.signaler, Act.signaler, Act.signaler, Act.signaler,
+       Act.waiter 0, Act.waiter 0, Act.waiter 0]
+example : exTimedRun.w 0 = TPc.done ∧ exTimedRun.w 1 = TPc.done ∧ exTimedRun.sawPred 0 = true ∧
+    exTimedRun.timedOut 1 = true ∧ exTimedRun.sawPred 1 = false ∧ exTimedRun.wakeups = 2 := by decide
+
+open AslModel.Thread.SemT AslProofs.SemT in
+/-- **semaphore_failed_attempts_take_nothing.**  A semaphore used through `post()`, `wait()`, `trywait()` and
+    `wait(timeout)` in any order, with any of the timed waits running out: initial count + completed posts = current
+    count + attempts that reported success; an attempt that reports failure takes nothing, and `trywait()` reports
+    failure exactly when the count is 0. -/
+theorem semaphore_failed_attempts_take_nothing (k : Nat) (r : List AslModel.Thread.SemT.Op) :
+    k + (AslModel.Thread.SemT.run (AslModel.Thread.SemT.init k) r).posts =
+      (AslModel.Thread.SemT.run (AslModel.Thread.SemT.init k) r).count + (AslModel.Thread.SemT.run (AslModel.Thread.SemT.init k) r).taken ∧
+    (∀ s : AslModel.Thread.SemT.Sem, AslModel.Thread.SemT.result s AslModel.Thread.SemT.Op.tryWait = false ↔ s.count = 0) := by
+  constructor
+  · exact conserved_run k _ r (by simp [Conserved, AslModel.Thread.SemT.init])
+  · intro s; simp [AslModel.Thread.SemT.result]
+
+example : (AslModel.Thread.SemT.run (AslModel.Thread.SemT.init 1)
+    [.tryWait, .tryWait, .timedWait true, .post, .timedWait false, .wait, .post]).failed = 2 := by decide
+
+end Timed
 
 end C13
